@@ -305,6 +305,14 @@ class Interp:
             fr = getattr(fv, "frame", None)
             fv = self.read_ref(getattr(self, "cur_env", None) or {}, fv)
             hops += 1
+        if isinstance(fv, Sym) and self.oracle is not None:
+            # an opaque function value (a fn-pointer field modelled as a symbol): the rule's oracle answers the call
+            env_ = getattr(self, "cur_env", None) or {}
+            fdesc = {"kind": "fnptr", "fnptr_value": fv, "key": "fnptr", "name": "fnptr"}
+            res = self.oracle(self, env_, fdesc, list(args), {"target": 0, "dest": [0, []], "args": [], "f": fdesc}, -1, Path())
+            if res is not TOP and res != "DIVERGE":
+                return [(res, [], "return", dict(self.mstate))]
+            return None
         if isinstance(fv, Agg) and fv.kind == "closure":
             fn = self.facts.fn_opt(fv.name)
             if fn is None:
